@@ -61,6 +61,29 @@ def outcome(function):
 		return f'crash:{type(ex).__name__}'
 
 
+def codec_of(net):
+	"""The generated codec module whose PublicKey / Signature classes transactions carry (sc on Symbol, nc on NEM)."""
+	from symbolchain import nc, sc
+	return sc if net == 'sym' else nc
+
+
+def key_object(net, keytype, data):
+	"""The public key bytes as the documented SDK class (CryptoTypes.PublicKey), as the codec class a transaction's
+	signer_public_key has, or as a default-constructed codec key (all zero)."""
+	from symbolchain.CryptoTypes import PublicKey
+	if keytype == 'codec':
+		return codec_of(net).PublicKey(data)
+	if keytype == 'codec-default':
+		assert data == bytes(32)
+		return codec_of(net).PublicKey()
+	return PublicKey(data)
+
+
+def signature_object(net, keytype, data):
+	from symbolchain.CryptoTypes import Signature
+	return codec_of(net).Signature(data) if keytype.startswith('codec') else Signature(data)
+
+
 # ---------------------------------------------------------------------------------------------------------------------
 # generators
 
@@ -307,6 +330,9 @@ def gen_verify_cases(rng, signed, count):
 		what = kinds[(len(cases) // len(usable) + len(cases)) % len(kinds)] if len(cases) >= len(kinds) else kinds[len(cases)]
 		public, payload, signature = bytes.fromhex(out['public']), bytes.fromhex(out['payload']), bytes.fromhex(out['signature'])
 		entry = {'kind': 'verify', 'net': case['net'], 'network': case['network'], 'what': what}
+		if what != 'tx-bit':
+			# the same verdict is required whichever of the two key / signature classes (CryptoTypes or generated codec) carries the bytes
+			entry['keytype'] = 'crypto' if (len(cases) // len(kinds) + len(cases)) % 2 == 0 else 'codec'
 		if what == 'payload-bit':
 			payload = flip(payload, rng.randrange(8 * len(payload)))
 		elif what == 'sigR-bit':
@@ -360,7 +386,7 @@ def systematic_signature_cases(signed):
 				variants.append((what, signature[:32] + value.to_bytes(32, 'little')))
 		for what, changed in variants:
 			cases.append({
-				'kind': 'verify', 'net': case['net'], 'network': case['network'], 'what': what,
+				'kind': 'verify', 'net': case['net'], 'network': case['network'], 'what': what, 'keytype': 'codec' if len(cases) % 3 == 2 else 'crypto',
 				'public': public, 'payload': payload, 'signature': changed.hex()})
 	return cases
 
@@ -394,7 +420,7 @@ def tx_bit_case(rng, case, out):
 
 
 def impl_verify(case):
-	from symbolchain.CryptoTypes import PublicKey, Signature
+	from symbolchain.CryptoTypes import Signature
 	facade = facade_of(case['net'], case['network'])
 	if case['what'] == 'tx-bit':
 		try:
@@ -405,8 +431,9 @@ def impl_verify(case):
 		if reserialized != flip(bytes.fromhex(case['signed_tx']), case['bit']):
 			return 'unparsable:not-canonical'
 		return outcome(lambda: facade.verify_transaction(transaction, Signature(transaction.signature.bytes)))
-	return outcome(lambda: facade.Verifier(PublicKey(bytes.fromhex(case['public']))).verify(
-		bytes.fromhex(case['payload']), Signature(bytes.fromhex(case['signature']))))
+	keytype = case.get('keytype', 'crypto')
+	return outcome(lambda: facade.Verifier(key_object(case['net'], keytype, bytes.fromhex(case['public']))).verify(
+		bytes.fromhex(case['payload']), signature_object(case['net'], keytype, bytes.fromhex(case['signature']))))
 
 
 def model_verify(cases):
